@@ -139,6 +139,12 @@ func driver(id, tier string) int {
 	}
 	nw := nWorkers()
 	t0 := time.Now()
+	// replay files of earlier runs of this check are stale
+	if old, err := filepath.Glob(filepath.Join(replayDir(), id+"-*.json")); err == nil {
+		for _, f := range old {
+			_ = os.Remove(f)
+		}
+	}
 	fmt.Printf("property=%s tier=%s VERIF_SEED=%d runs=%d workers=%d\n", id, tier, seed, runs, nw)
 
 	states := make([]*wstate, nw)
